@@ -261,4 +261,37 @@ def holdsOnConc (pre : List (Op × Obs)) (hist : List Call) : Bool :=
     let calls := hist.flatMap Call.parts
     linearizable calls.length st calls
 
+/-! ### classification of a non-linearizable history (for the known-finding signature only) -/
+
+/-- a single-key accepted write that overlaps in time a range delete of the same key -/
+def racesDelete (all : List Call) (c : Call) : Bool :=
+  match c.op, c.obs with
+  | .write [(k, _)], .ok =>
+    all.any fun d =>
+      match d.op with
+      | .delrange [k'] _ _ => k' == k && decide (d.inv < c.ret) && decide (c.inv < d.ret)
+      | _ => false
+  | _, _ => false
+
+/-- like `linearizable`, but a write that races a range delete of its key may be
+    linearized as having had no effect (its values are lost) -/
+def linearizableLossy (all : List Call) : Nat → St → List Call → Bool
+  | 0, _, pending => pending.isEmpty
+  | fuel + 1, st, pending =>
+    pending.isEmpty ||
+    pending.any fun c =>
+      minimal pending c &&
+        ((let (st', fs) := stepSt st 0 (c.op, c.obs)
+          fs.all Fail.isStale && linearizableLossy all fuel st' (pending.filter fun p => !p.same c)) ||
+         (racesDelete all c && linearizableLossy all fuel st (pending.filter fun p => !p.same c)))
+
+/-- the history is NOT linearizable, but it would be if writes racing a range delete of
+    their key could be lost: the signature of the known finding `lost-write-racing-delete` -/
+def lostWriteRacingDelete (pre : List (Op × Obs)) (hist : List Call) : Bool :=
+  match finalSt {} 0 pre with
+  | none => false
+  | some st =>
+    let calls := hist.flatMap Call.parts
+    !linearizable calls.length st calls && linearizableLossy calls calls.length st calls
+
 end Influx.Spec.C09
